@@ -490,3 +490,75 @@ def run(chk, prog):
                            'completely' % {'tags-read': 'reading the step\'s tags',
                                            'messages-flushed': 'flushing the collected messages'}[what],
                            es.loc(conts[0]), {'witness_blocks': bad})
+    every_play_path_allows_fallbacks(chk, prog, tr)
+
+
+def every_play_path_allows_fallbacks(chk, prog, tr):
+    RF = 'C20.every-play-path-configures-the-story'
+    chk.rule(RF, 'The tool plays stories with ink fallbacks for unbound EXTERNAL functions allowed. Wherever it constructs a '
+             'Story (Story::new) every path from there to the first Story::cont - through the functions it calls - passes '
+             'set_allow_external_function_fallbacks: a construction site that reaches the player without it plays the same '
+             'program differently (an EXTERNAL with an ink fallback fails) depending on whether it was given as source or '
+             'as compiled JSON.')
+    fns = [f for f in prog.fns.values() if f.crate == 'rinklecate' and not f.parent]
+    by_p = {f.p: f for f in fns}
+
+    def direct(f, names):
+        return [bb for g_ in [f] for bb, t in g_.calls() if callee_short(t) in names]
+    # which functions may reach Story::cont
+    reach = set()
+    changed = True
+    while changed:
+        changed = False
+        for f in fns:
+            if f.p in reach:
+                continue
+            for g_ in prog.with_closures(f):
+                for bb, t in g_.calls():
+                    if callee_short(t) in ('Story::cont', 'Story::continue_maximally', 'Story::continue_async') \
+                            or callee(t) in reach:
+                        reach.add(f.p)
+                        changed = True
+    est = {}
+
+    def establishes(f, depth=0):
+        """every path from f's entry to a call that may reach cont passes set_allow (directly or in an establishing callee)"""
+        if f.p in est:
+            return est[f.p]
+        est[f.p] = False
+        g = cfg(f)
+        setters, conts = [], []
+        for bb, t in f.calls():
+            cs = callee_short(t)
+            h = by_p.get(callee(t))
+            if cs == 'Story::set_allow_external_function_fallbacks':
+                setters.append(bb)
+            elif h is not None and depth < 4 and h.p in reach and establishes(h, depth + 1):
+                setters.append(bb)
+            elif cs in ('Story::cont', 'Story::continue_maximally', 'Story::continue_async') or callee(t) in reach:
+                conts.append(bb)
+        ok = g.path([0], lambda b: b in conts, avoid=setters) is None
+        est[f.p] = ok
+        return ok
+    n = 0
+    for f in fns:
+        news = [bb for bb, t in f.calls() if callee_short(t) == 'Story::new']
+        if not news:
+            continue
+        g = cfg(f)
+        setters, conts = [], []
+        for bb, t in f.calls():
+            cs = callee_short(t)
+            h = by_p.get(callee(t))
+            if cs == 'Story::set_allow_external_function_fallbacks' or (h is not None and h.p in reach and establishes(h)):
+                setters.append(bb)
+            elif cs in ('Story::cont', 'Story::continue_maximally', 'Story::continue_async') or callee(t) in reach:
+                conts.append(bb)
+        for nb in news:
+            n += 1
+            w = g.path([nb], lambda b: b in conts, avoid=setters)
+            chk.decide(RF, chk.key(RF, f.short, '#%d' % n), w is None,
+                       'the story is configured before it is played',
+                       '%s constructs a Story and reaches the player without allowing ink fallbacks for external functions '
+                       '(neither here nor in the function it hands the story to)' % f.short, f.loc(nb), {'witness_blocks': w})
+    chk.floor(RF, 'Story construction sites in rinklecate', n, 2)
